@@ -32,5 +32,16 @@ def failing_notification_histories(r, thorough):
     return cases
 
 
+def with_races(r, thorough):
+    """plus the interleaved histories of C05 (a LEAVE / clean-up suspended in its modulator notification while another
+    connection joins): a JOIN that was acknowledged and announced must show in MEMBERS (the change log the members and the
+    modulator were given has to replay to the member list), so the CHANNELS-vs-MEMBERS audit counts here as well"""
+    import c05
+    races = c05.interleaved_histories(r, thorough)
+    for c in races:
+        c["also"] = ["C05"]
+    return failing_notification_histories(r, thorough) + races
+
+
 def run(tier, replay=None):
-    return srvprops.run(PROP, THEOREMS, tier, replay, extra_gen=failing_notification_histories, known_classifier=classify)
+    return srvprops.run(PROP, THEOREMS, tier, replay, extra_gen=with_races, known_classifier=classify)
